@@ -2164,7 +2164,8 @@ class GroupBy:
                 "by": self.by,
                 "sort": self.sort,
                 "observed": self.observed,
-                "dropna": self.dropna,
+                # dropna=None must not reach pandas, which reads it as dropna=False
+                **_as_dict("dropna", self.dropna),
                 "group_keys": self.group_keys,
             },
             groupby_slice=self._slice,
